@@ -59,11 +59,17 @@ try:
         for crate, n in names:
             os.remove(os.path.join(repo, crate, "tests", n + ".rs"))
         checks = {}
+        if ids == ["ALL"]:
+            ids = sorted({c["property_id"] for c in json.load(open("/verif/MANIFEST.json"))["checks"]})
+        e = dict(os.environ, VERIF_REPO=repo, VERIF_EVID_DIR=os.path.join(tmp, "evid"), VERIF_NO_SELFTEST="1")
+        e.pop("VERIF_DEV_FACTS", None)
+        # one dump of every config shared by all checks of this seed
+        for cfg in ("ws", "std", "libm", "mm", "none"):
+            subprocess.run(["/verif/sa/dump.sh", cfg, os.path.join(tmp, "facts-" + cfg)], env=e, stdout=subprocess.DEVNULL, stderr=subprocess.DEVNULL)
+        e["VERIF_DEV_FACTS"] = tmp
         for i in (ids or [prop]):
-            e = dict(os.environ, VERIF_REPO=repo, VERIF_EVID_DIR=os.path.join(tmp, "evid"), VERIF_NO_SELFTEST="1")
-            e.pop("VERIF_DEV_FACTS", None)
             c = subprocess.run(["/verif/check", i, "--tier", "quick"], env=e, stdout=subprocess.PIPE, stderr=subprocess.STDOUT, text=True)
-            checks[i] = (c.returncode, [l[:260] for l in c.stdout.splitlines() if l.strip().startswith("[") or "INFRA" in l][:4])
+            checks[i] = (c.returncode, [l[:300] for l in c.stdout.splitlines() if "key=" in l or "INFRA" in l or "VIOLATION" in l][:5])
         res["checks"] = checks
     print(json.dumps(res, indent=1))
 finally:
